@@ -559,6 +559,7 @@ pub fn run(c: &mut Ctx) {
         }
     }
     ops(c, &vals);
+    round2(c, &vals);
 }
 
 /// independent reader of the Display form: [-]P0D | [-]PT<int>[.<frac>]S  ->  nanoseconds
@@ -889,6 +890,21 @@ fn ops(c: &mut Ctx, vals: &[TimeDelta]) {
                 if text != ref_display(exact) {
                     c.fail("Display is not the canonical text of the exact decimal number of seconds", &format!("{s} {n} -> {text}, expected {}", ref_display(exact)));
                 }
+                // formatter flags (width, fill, alignment, sign, precision, alternate form) are outside the statement
+                // and the model has no formatter state: today `fmt` ignores them, i.e. the model's text is what every
+                // `{…}` form prints; if that ever changes this message separates it from a wrong plain text
+                match guard(|| {
+                    [format!("{d:>30}"), format!("{d:<30}"), format!("{d:^31}"), format!("{d:*>40}"), format!("{d:030}"), format!("{d:+}"),
+                     format!("{d:.2}"), format!("{d:#}"), format!("{d:w$}", w = 33), format!("{d:+012.3}")]
+                }) {
+                    Ok(forms) => {
+                        c.count_n("call:Display.flags", forms.len() as u64);
+                        if let Some(f) = forms.iter().find(|f| **f != text) {
+                            c.fail("formatter-flags: Display under width / fill / sign / precision flags is not the plain `{}` text (outside the model)", &format!("{s} {n} -> {f:?} vs {text:?}"));
+                        }
+                    }
+                    Err(()) => c.fail("formatter-flags: Display panicked under formatter flags", &format!("{s} {n}")),
+                }
             }
             Err(()) => c.fail("Display panicked", &format!("{s} {n}")),
         }
@@ -948,6 +964,154 @@ fn ops(c: &mut Ctx, vals: &[TimeDelta]) {
                 }
             }
             Err(()) => c.fail("from_std panicked", &format!("{s} {n}")),
+        }
+    }
+}
+
+fn hash_of(d: &TimeDelta) -> u64 {
+    use std::hash::{Hash, Hasher};
+    let mut h = std::collections::hash_map::DefaultHasher::new();
+    d.hash(&mut h);
+    h.finish()
+}
+
+/// second audit: the deserialising constructor (constructor view only; serde round trips belong to C20), and the
+/// derived `PartialEq` / `Eq` / `PartialOrd` / `Ord` / `Hash` of `struct TimeDelta { secs, nanos }` — the derive list
+/// is an attribute, which the pin tokenizer drops, so field order and derive semantics are judged here on directed pairs
+fn round2(c: &mut Ctx, vals: &[TimeDelta]) {
+    // ---- impl Deserialize: new(secs, nanos as u32) on the (i64, i32) tuple -------------------------
+    let mut grid: Vec<(i64, i32)> = Vec::new();
+    let secs_b: Vec<i64> = {
+        let mut v = vec![0, 1, -1, i64::MAX, i64::MIN, i64::MAX - 1, i64::MIN + 1];
+        for d in -2..=2 {
+            v.push(MAX_S + d);
+            v.push(MIN_S + d);
+        }
+        v
+    };
+    let nanos_b: Vec<i32> = {
+        let mut v = vec![0, 1, -1, -2, i32::MAX, i32::MAX - 1, i32::MIN, i32::MIN + 1, -1_000_000_000, -999_999_999, -807_000_000, -193_000_000];
+        for d in -2i32..=2 {
+            for b in [MAX_N as i32, MIN_N as i32, 1_000_000_000, 2_000_000_000] {
+                v.push(b + d);
+            }
+        }
+        v
+    };
+    for &s in &secs_b {
+        for &n in &nanos_b {
+            grid.push((s, n));
+        }
+    }
+    let n_de = c.n(4000, 60000);
+    for _ in 0..n_de {
+        let (s, n) = gen_pair(c);
+        let n = match c.rng.below(8) {
+            0 => c.rng.next() as i32,
+            1 => -(n as i32),
+            _ => n as i32,
+        };
+        let s = if c.rng.chance(1, 16) { c.rng.next() as i64 } else { s };
+        grid.push((s, n));
+    }
+    for (s, n) in grid {
+        let text = format!("[{s},{n}]");
+        let got = guard(|| serde_json::from_str::<TimeDelta>(&text).ok());
+        c.count_n("call:TimeDelta.deserialize", 1);
+        c.op(&format!("td.de {s} {n}"), &match &got { Ok(o) => so(*o), Err(()) => "panic".into() });
+        let exact = s as i128 * 1_000_000_000 + n as i128;
+        let valid = (0..1_000_000_000).contains(&n) && in_range(exact);
+        c.count(if valid { "de:valid" } else if n < 0 { "de:negative-nanos" } else { "de:out-of-range" });
+        match &got {
+            Ok(Some(d)) => {
+                if !inv(d) {
+                    c.fail("deserialisation built a TimeDelta that violates the invariant", &format!("{text} -> {}", show(d)));
+                } else if raw(d) != (s, n) {
+                    c.fail("deserialisation built a value other than the (secs, nanos) pair it was given", &format!("{text} -> {}", show(d)));
+                }
+            }
+            Ok(None) => {
+                if valid {
+                    c.fail("deserialisation refuses a valid (secs, nanos) pair", &text);
+                }
+            }
+            Err(()) => c.fail("deserialisation panicked", &text),
+        }
+    }
+    // numbers outside (i64, i32) and other shapes never reach `new`: an error, not a panic and not a value
+    for text in [
+        "[0,2147483648]", "[0,-2147483649]", "[0,4294967295]", "[0,4294967296]", "[9223372036854775808,0]", "[-9223372036854775809,0]",
+        "[0]", "[0,0,0]", "[]", "[0.5,0]", "[0,0.5]", "[0,1e3]", "[\"0\",0]", "[null,0]", "{\"secs\":0,\"nanos\":0}", "0", "\"PT0S\"", "null",
+    ] {
+        match guard(|| serde_json::from_str::<TimeDelta>(text).ok()) {
+            Ok(None) => {}
+            Ok(Some(d)) => c.fail("deserialisation accepts a text that is not an (i64, i32) pair", &format!("{text} -> {}", show(&d))),
+            Err(()) => c.fail("deserialisation panicked", text),
+        }
+        c.count("de:malformed");
+    }
+
+    // ---- derived Eq / Ord / Hash on directed pairs ---------------------------------------------------
+    // partners of a = (s, n) that differ from it in exactly one field; the numeric order of such a pair is the order
+    // of that field, whichever order the fields are declared in — and for a pair that differs in both fields in
+    // opposite directions (s+1, n-d) the order is that of secs: only `secs` before `nanos` compares these correctly
+    let n_dir = c.n(6000, 80000);
+    for i in 0..n_dir {
+        let a = if i % 4 == 0 { *c.rng.pick(&vals[..10]) } else { gen_valid(c) };
+        let (s, n) = raw(&a);
+        let ds = match c.rng.below(3) { 0 => 1, 1 => -1, _ => c.rng.range(-1000, 1000) };
+        let dn = match c.rng.below(3) { 0 => 1, 1 => -1, _ => c.rng.range(-999_999_999, 999_999_999) as i32 };
+        let cands = [
+            (s.saturating_add(ds), n),                 // secs only
+            (s, n + dn),                               // nanos only
+            (s + 1, n - dn.abs()),                     // secs up, nanos down
+            (s - 1, n + dn.abs()),                     // secs down, nanos up
+            (s, n),                                    // equal, built through another route
+        ];
+        for (k, (s2, n2)) in cands.into_iter().enumerate() {
+            if !(0..1_000_000_000).contains(&n2) {
+                continue;
+            }
+            let b = match TimeDelta::new(s2, n2 as u32) {
+                Some(b) => b,
+                None => continue,
+            };
+            let (ea, eb) = (ns_of(&a), ns_of(&b));
+            c.count(["dir:secs-only", "dir:nanos-only", "dir:secs-up-nanos-down", "dir:secs-down-nanos-up", "dir:equal"][k]);
+            let got = gs(
+                || (a == b, a != b, a.cmp(&b) as i32, a.partial_cmp(&b).map(|o| o as i32), a.max(b) == b, a.min(b) == b, hash_of(&a) == hash_of(&b)),
+                |t| format!("{} {} {} {} {} {} {}", b01(t.0), b01(t.1), t.2, opt(t.3), b01(t.4), b01(t.5), b01(t.6)),
+            );
+            c.op(&format!("td.cmp {s} {n} {s2} {n2}"), &gs(|| a.cmp(&b) as i32, |x| x.to_string()));
+            let ord = ea.cmp(&eb) as i32;
+            // hash: equal values hash equal (required); for unequal values the column is not judged
+            let parts: Vec<&str> = got.split(' ').collect();
+            let want = format!("{} {} {} {} {} {}", b01(ea == eb), b01(ea != eb), ord, ord, b01(eb >= ea), b01(eb <= ea));
+            if parts.len() != 7 || parts[..6].join(" ") != want {
+                c.fail("derived ==, !=, cmp, partial_cmp, max, min disagree with the numeric order on a pair differing in one field (or in both, in opposite directions)", &format!("{s} {n} vs {s2} {n2} -> {got}, expected {want}"));
+            }
+            if ea == eb && parts.len() == 7 && parts[6] != "1" {
+                c.fail("equal TimeDelta values hash differently", &format!("{s} {n} vs {s2} {n2}"));
+            }
+        }
+        // equal values reached through arithmetic hash equal and compare equal
+        let b = gen_valid(c);
+        if let Some(x) = a.checked_add(&b).and_then(|x| x.checked_sub(&b)) {
+            if x != a || x.cmp(&a) as i32 != 0 || hash_of(&x) != hash_of(&a) {
+                c.fail("(a + b) - b is not equal to a under derived Eq / Ord / Hash", &format!("{} ; {}", show(&a), show(&b)));
+            }
+            c.count("dir:equal-by-arithmetic");
+        }
+    }
+    for (x, y) in [
+        (TimeDelta::seconds(1), TimeDelta::milliseconds(1000)),
+        (TimeDelta::zero(), TimeDelta::default()),
+        (TimeDelta::nanoseconds(-1), TimeDelta::new(-1, 999_999_999).unwrap()),
+        (TimeDelta::MAX, TimeDelta::milliseconds(i64::MAX)),
+        (TimeDelta::MIN, -TimeDelta::MAX),
+    ] {
+        if x != y || hash_of(&x) != hash_of(&y) || x.cmp(&y) as i32 != 0 {
+            c.fail("two constructions of the same duration are not equal under derived Eq / Ord / Hash", &format!("{} ; {}", show(&x), show(&y)));
         }
     }
 }
